@@ -1,94 +1,53 @@
 (* C14 property theorems: statements only, each closed by `exact`.
    Model: coq/C14/Model.v.  A schedule is a list of scheduling choices ([F w]: worker w finishes its next job,
-   [P]: one poll of the main loop; [T w]: worker w takes the next job of run_jobs, [JP]: one poll, [V]: the queued jobs become visible); every
-   theorem quantifies over ALL schedules, batch contents, process counts (and sequences of batches). *)
+   [P]: the main process gets a turn; [T w]: worker w takes the next job of run_jobs, [JP]: one poll of its
+   collection loop, [V]: the queued jobs become visible); every theorem quantifies over ALL schedules, batch
+   contents, process counts (and sequences of batches).
+   Sections A-C are about the code as it is now (sneaky.py after c80ac95, process.py after 67a753d; the
+   correspondence runs `batches true` / `samples_from_model true` / `run_jobs`).  Section D keeps the machine-checked
+   record of what the code did before the two repairs (models selected by C14_MAP_FIXED=0). *)
 From Coq Require Import List Bool Arith Permutation.
-From PAFC14 Require Import Model Lib Proofs1 Proofs2 Proofs3 Proofs4 Proofs5 Witness.
+From PAFC14 Require Import Model Lib Proofs1 Proofs2 Proofs3 Proofs4 Proofs5 Proofs6 Witness.
 Import ListNotations.
 
-(* ---- SneakyPool.map as it is (results yielded in the order of discovery) ---- *)
+(* ================= A. SneakyPool.map (ordered blocking collection) ================= *)
 
-(* FULL: a finished call on a pool with empty queues has taken exactly the jobs of this batch (as a multiset),
-   has evaluated each of them exactly once, and leaves every queue empty *)
-Theorem C14_map_once_no_residue : forall (R E : Type) n (jobs : list (nat * outcome R E)) (p0 : pool R E) sched p m,
-  0 < n -> wf n p0 -> clean p0 -> run sched (start jobs p0) = (p, m) -> done m = true ->
-  Permutation (taken m) jobs /\ clean p /\ wf n p /\ (exists ev, elog p = elog p0 ++ ev /\ Permutation ev jobs).
-Proof. exact @map_conservation. Qed.
-
-(* FULL: the yielded values are a permutation of the serial results *)
-Theorem C14_map_yields_permutation : forall (R E : Type) n (jobs : list (nat * outcome R E)) (p0 : pool R E) sched p m,
-  0 < n -> wf n p0 -> clean p0 -> run sched (start jobs p0) = (p, m) -> done m = true ->
-  Permutation (yields (taken m)) (yields jobs).
-Proof. exact @map_yields_permutation. Qed.
-
-(* FULL: an exception is raised iff a job of this batch failed, and it is one of this batch's exceptions *)
-Theorem C14_map_exception_reported : forall (R E : Type) n (jobs : list (nat * outcome R E)) (p0 : pool R E) sched p m,
-  0 < n -> wf n p0 -> clean p0 -> run sched (start jobs p0) = (p, m) -> done m = true ->
-  (exc m = None <-> (forall it, In it jobs -> is_exc it = false)) /\
-  (forall it, exc m = Some it -> In it jobs /\ is_exc it = true).
-Proof. exact @map_exception_reported. Qed.
-
-(* FULL: every sequence of batches on one pool, failures included: each finished call hands back its own batch
-   (values a permutation of its serial results, each input evaluated once, all queues empty afterwards, an
-   exception iff one of ITS jobs failed) -- nothing can be attributed to a later batch *)
-Theorem C14_map_batches_no_residue : forall (R E : Type) n (bs : list (list (outcome R E) * list action)) (p0 : pool R E),
-  0 < n -> wf n p0 -> clean p0 ->
-  Forall (fun o => bo_done o = true) (batches false bs p0) ->
-  Forall2 (fun b o => batch_good (fst b) o) bs (batches false bs p0).
-Proof. exact @map_batches. Qed.
-
-(* FULL (termination): once every job of the batch has been evaluated, (|jobs| + 2) * n further polls end the call,
-   wherever the sweep stands *)
-Theorem C14_map_terminates : forall (R E : Type) n (jobs : list (nat * outcome R E)) (p0 : pool R E) sched,
-  0 < n -> wf n p0 -> clean p0 ->
-  concat (pend (fst (run sched (start jobs p0)))) = [] ->
-  done (snd (run (sched ++ repeat P (drain_fuel n (length jobs))) (start jobs p0))) = true.
-Proof. exact @map_terminates. Qed.
-
-(* FULL (headline): EVERY schedule in which every job gets evaluated gives a finished call that yields a permutation
-   of the serial results, evaluated each input once, left no residue, and raised iff a job of the batch failed *)
-Theorem C14_map_complete_schedule : forall (R E : Type) n (outs : list (outcome R E)) (p0 : pool R E) sched,
-  0 < n -> wf n p0 -> clean p0 ->
-  concat (pend (fst (run sched (start (enum outs) p0)))) = [] ->
-  bo_done (snd (batch false outs sched p0)) = true /\ batch_good outs (snd (batch false outs sched p0)).
-Proof. exact @batch_complete_schedule. Qed.
-
-(* REFUTED (the finding): positional order -- two processes, the second finishes first *)
-Theorem C14_map_order_refuted :
-  exists (outs : list (outcome nat nat)) (sched : list action) p m,
-    run sched (start (enum outs) (fresh 2)) = (p, m) /\ done m = true /\
-    yields (taken m) <> yields (enum outs).
-Proof. exact map_order_refuted. Qed.
-
-(* PARTIAL: order holds per process (the jobs of process w are discovered in input order) ... *)
-Theorem C14_map_worker_order_partial : forall (R E : Type) n (jobs : list (nat * outcome R E)) (p0 : pool R E) sched p m w,
-  0 < n -> wf n p0 -> clean p0 -> run sched (start jobs p0) = (p, m) -> done m = true -> w < n ->
-  filterw n w (taken m) = filterw n w jobs.
-Proof. exact @map_worker_order. Qed.
-
-(* PARTIAL: ... hence with ONE process map equals serial evaluation, by position, exception included *)
-Theorem C14_map_order_single_partial : forall (R E : Type) (jobs : list (nat * outcome R E)) (p0 : pool R E) sched p m,
-  wf 1 p0 -> clean p0 -> run sched (start jobs p0) = (p, m) -> done m = true ->
-  taken m = jobs /\ yields (taken m) = yields jobs /\ exc m = last_exc jobs None.
-Proof. exact @map_order_single. Qed.
-
-(* ---- the repaired map (proposed_fixes/C14-map-order.diff): ordered blocking collection ---- *)
-
-(* FULL: every schedule, every number of processes: items taken in input order, serial exception, each job
-   evaluated once, queues empty *)
-Theorem C14_mapfix_order : forall (R E : Type) n (jobs : list (nat * outcome R E)) (p0 : pool R E) sched p f,
+(* FULL: every schedule, every number of processes: a finished call has taken the items in input order (so it
+   yields exactly the serial results by position), has evaluated each job exactly once and leaves every queue
+   empty.  The exception it raises is the one of the LAST failing input ([last_exc]: the loop keeps collecting and
+   overwrites `exception`; a serial loop would have stopped at the first failing input) *)
+Theorem C14_map_order : forall (R E : Type) n (jobs : list (nat * outcome R E)) (p0 : pool R E) sched p f,
   0 < n -> wf n p0 -> clean p0 -> frun sched (fstart jobs p0) = (p, f) -> fdone f = true ->
   ftaken f = jobs /\ fexc f = last_exc jobs None /\ clean p /\ wf n p /\
   (exists ev, elog p = elog p0 ++ ev /\ Permutation ev jobs).
 Proof. exact @mapfix_order. Qed.
 
-Theorem C14_mapfix_batches : forall (R E : Type) n (bs : list (list (outcome R E) * list action)) (p0 : pool R E),
+(* FULL: every sequence of batches on one pool, failures included: each finished call hands back exactly its own
+   batch -- nothing can be attributed to a later batch *)
+Theorem C14_map_batches : forall (R E : Type) n (bs : list (list (outcome R E) * list action)) (p0 : pool R E),
   0 < n -> wf n p0 -> clean p0 ->
   Forall (fun o => bo_done o = true) (batches true bs p0) ->
   Forall2 (fun b o => batch_exact (fst b) o) bs (batches true bs p0).
 Proof. exact @mapfix_batches. Qed.
 
-(* ---- Process.run_jobs ---- *)
+(* FULL (termination): EVERY schedule in which every job of the batch gets evaluated ends the call *)
+Theorem C14_map_terminates : forall (R E : Type) n (jobs : list (nat * outcome R E)) (p0 : pool R E) sched,
+  0 < n -> wf n p0 -> clean p0 ->
+  concat (pend (fst (frun sched (fstart jobs p0)))) = [] ->
+  fdone (snd (frun sched (fstart jobs p0))) = true.
+Proof. exact @mapfix_terminates. Qed.
+
+(* FULL (headline): every such schedule gives a finished call whose observables are exactly those of serial
+   evaluation: values by position, each input evaluated once, no residue *)
+Theorem C14_map_complete_schedule : forall (R E : Type) n (outs : list (outcome R E)) (p0 : pool R E) sched,
+  0 < n -> wf n p0 -> clean p0 ->
+  concat (pend (fst (frun sched (fstart (enum outs) p0)))) = [] ->
+  bo_done (snd (batch true outs sched p0)) = true /\ batch_exact outs (snd (batch true outs sched p0)).
+Proof. exact @batch_fixed_complete_schedule. Qed.
+
+(* ================= B. Process.run_jobs and its callers ================= *)
+(* [fixed] selects the worker loop: true = blocking get + StopCommand sentinels (the code as it is now),
+   false = the earlier `if job_queue.empty(): break`.  Safety holds for both. *)
 
 (* FULL: every schedule: what has been delivered is a sub-multiset of the jobs (nothing invented or doubled) *)
 Theorem C14_jobs_conservation : forall (R E : Type) nw (jobs : list (nat * outcome R E)) fixed sched,
@@ -112,22 +71,19 @@ Theorem C14_jobs_observation : forall (R E : Type) fixed sched (s : jstate R E),
   exists sched', jrun_obs fixed sched s = jrun fixed sched' s.
 Proof. exact @jrun_obs_prefix. Qed.
 
-(* REFUTED (second finding): a call of run_jobs need not end -- every worker looks at the shared queue before
-   the parent's feeder thread has flushed the jobs ([T 0] before [V]) and exits; the main loop polls forever and
-   the job is never evaluated *)
-Theorem C14_jobs_termination_refuted :
-  exists (nw : nat) (outs : list (outcome nat nat)) (sched : list jaction),
-    forall k, let s := jrun false (sched ++ repeat JP k) (jstart nw (enum outs)) in
-              jdone s = false /\ jtaken s = [] /\ jq s = enum outs.
-Proof. exact jobs_termination_refuted. Qed.
-
-(* repaired worker loop (proposed_fixes/C14-run-jobs-sentinel.diff): in every reachable state with jobs still
-   queued every worker is still there *)
-Theorem C14_jobsfix_workers_stay : forall (R E : Type) nw (jobs : list (nat * outcome R E)) sched,
+(* FULL (sentinel worker loop): in every reachable state with jobs still queued every worker is still there *)
+Theorem C14_jobs_workers_stay : forall (R E : Type) nw (jobs : list (nat * outcome R E)) sched,
   workers_stay (jrun true sched (jstart nw jobs)).
 Proof. exact @workers_stay_run. Qed.
 
-(* ---- callers keyed by job number: ResultBuilder.add / Sensitivity.run sorted(results) ---- *)
+(* FULL (termination): once every job has been taken from the shared queue (a take includes evaluation and put),
+   jdrain_fuel further polls end the collection loop, wherever the sweep stands *)
+Theorem C14_jobs_terminates : forall (R E : Type) nw (jobs : list (nat * outcome R E)) fixed sched,
+  0 < nw -> jq (jrun fixed sched (jstart nw jobs)) = [] ->
+  jdone (jrun fixed (sched ++ repeat JP (jdrain_fuel nw (length jobs))) (jstart nw jobs)) = true.
+Proof. exact @jobs_terminates. Qed.
+
+(* callers keyed by job number: ResultBuilder.add / Sensitivity.run sorted(results) *)
 Theorem C14_keyed_summaries : forall (R E : Type) (outs : list (outcome R E)) (l : list (nat * outcome R E)),
   Permutation l (enum outs) -> summaries (length outs) l = map Some outs.
 Proof. exact @keyed_summaries. Qed.
@@ -142,28 +98,68 @@ Theorem C14_jobs_keyed_serial : forall (R E : Type) nw (outs : list (outcome R E
   summaries (length outs) (good (jtaken s)) = map Some outs /\ sorted_results (good (jtaken s)) = enum outs.
 Proof. exact @jobs_keyed_serial. Qed.
 
-(* ---- AbstractInitializer.samples_from_model (zip of map with the points, by position) ---- *)
+(* FULL: the consumer loops of GridSearch._fit / Sensitivity.run ([consume]: store until the first yielded
+   exception): if a job fails, a finished call lets the consumer meet an exception of one of the jobs *)
+Theorem C14_callers_exception : forall (R E : Type) nw (jobs : list (nat * outcome R E)) fixed sched s,
+  s = jrun fixed sched (jstart nw jobs) -> jdone s = true -> (exists it, In it jobs /\ is_exc it = true) ->
+  exists e k, fst (consume (jtaken s) []) = Some e /\ In (k, Exc e) jobs.
+Proof. exact @callers_exception. Qed.
 
-(* PARTIAL (current map: one core only) / FULL (repaired map: any number of cores), [inorder]: the accepted
-   (point, value) pairs are the valid points of a prefix of the stream, in order, each with its own value *)
-Theorem C14_init_serial_partial : forall (X V E : Type) fixed n total (stream : list (X * outcome (option V) E)) scheds res,
+(* ================= C. AbstractInitializer.samples_from_model ================= *)
+
+(* FULL for the code as it is ([inorder true n]: any number of cores; also [inorder false 1]: the old map with one
+   core): the accepted (point, value) pairs are the valid points of a prefix of the stream, in order, each with its
+   own value, exactly total_points of them *)
+Theorem C14_init_serial : forall (X V E : Type) fixed n total (stream : list (X * outcome (option V) E)) scheds res,
   inorder fixed n -> samples_from_model fixed n total stream scheds = IOk res ->
   (exists k, res = valid (firstn k stream)) /\ length res = total /\
   (forall x v, In (x, v) res -> In (x, Ok (Some v)) stream).
 Proof. exact @init_serial. Qed.
 
-(* REFUTED (same finding): two cores, current map: values attached to the wrong points *)
-Theorem C14_init_pairs_refuted :
+(* ================= D. record of the code before the repairs (C14_MAP_FIXED=0 models) ================= *)
+
+(* polling map: every sequence of batches hands back its own batch up to the ORDER of the yielded values *)
+Theorem C14_old_map_batches_no_residue : forall (R E : Type) n (bs : list (list (outcome R E) * list action)) (p0 : pool R E),
+  0 < n -> wf n p0 -> clean p0 ->
+  Forall (fun o => bo_done o = true) (batches false bs p0) ->
+  Forall2 (fun b o => batch_good (fst b) o) bs (batches false bs p0).
+Proof. exact @map_batches. Qed.
+
+Theorem C14_old_map_complete_schedule : forall (R E : Type) n (outs : list (outcome R E)) (p0 : pool R E) sched,
+  0 < n -> wf n p0 -> clean p0 ->
+  concat (pend (fst (run sched (start (enum outs) p0)))) = [] ->
+  bo_done (snd (batch false outs sched p0)) = true /\ batch_good outs (snd (batch false outs sched p0)).
+Proof. exact @batch_complete_schedule. Qed.
+
+(* PARTIAL: order held per process only *)
+Theorem C14_old_map_worker_order_partial : forall (R E : Type) n (jobs : list (nat * outcome R E)) (p0 : pool R E) sched p m w,
+  0 < n -> wf n p0 -> clean p0 -> run sched (start jobs p0) = (p, m) -> done m = true -> w < n ->
+  filterw n w (taken m) = filterw n w jobs.
+Proof. exact @map_worker_order. Qed.
+
+(* REFUTED (finding sneaky-map-completion-order, fixed by c80ac95): positional order *)
+Theorem C14_old_map_order_refuted :
+  exists (outs : list (outcome nat nat)) (sched : list action) p m,
+    run sched (start (enum outs) (fresh 2)) = (p, m) /\ done m = true /\
+    yields (taken m) <> yields (enum outs).
+Proof. exact map_order_refuted. Qed.
+
+Theorem C14_old_init_pairs_refuted :
   exists (stream : list (nat * outcome (option nat) nat)) scheds res,
     samples_from_model false 2 2 stream scheds = IOk res /\
     ~ (forall x v, In (x, v) res -> In (x, Ok (Some v)) stream).
 Proof. exact init_pairs_refuted. Qed.
 
-Print Assumptions C14_map_once_no_residue.
-Print Assumptions C14_map_batches_no_residue.
+(* REFUTED (finding run-jobs-startup-race, fixed by 67a753d): termination with the `empty()` worker loop *)
+Theorem C14_old_jobs_termination_refuted :
+  exists (nw : nat) (outs : list (outcome nat nat)) (sched : list jaction),
+    forall k, let s := jrun false (sched ++ repeat JP k) (jstart nw (enum outs)) in
+              jdone s = false /\ jtaken s = [] /\ jq s = enum outs.
+Proof. exact jobs_termination_refuted. Qed.
+
+Print Assumptions C14_map_order.
 Print Assumptions C14_map_complete_schedule.
-Print Assumptions C14_map_order_refuted.
-Print Assumptions C14_mapfix_order.
+Print Assumptions C14_jobs_terminates.
 Print Assumptions C14_jobs_keyed_serial.
-Print Assumptions C14_jobs_termination_refuted.
-Print Assumptions C14_init_serial_partial.
+Print Assumptions C14_callers_exception.
+Print Assumptions C14_init_serial.
